@@ -20,7 +20,7 @@ RULE = ("(a) every command class is constructed over comm 0..255, counts 1..125,
         "command class, argument class) tuples + distinct transaction ids seen")
 ASSUMPTIONS = ["the decoders in refcodec follow the Modbus specification (big-endian fields, CRC lo-hi, MBAP length = bytes "
                "that follow) and the AA55 framing stated in the property"]
-MUST = ["tcp_session_dropped_between_requests", "contract_eval_create_modbus_rtu_request", "contract_eval_create_modbus_tcp_request",
+MUST = ["tcp_connect_failures_between_requests", "tcp_session_dropped_between_requests", "contract_eval_create_modbus_rtu_request", "contract_eval_create_modbus_tcp_request",
         "contract_eval_create_modbus_rtu_multi_request", "contract_eval_create_modbus_tcp_multi_request",
         "txid_wraps", "negative_values", "aa55_negative_values", "wire_ops_matched", "wire_retransmissions",
         "classes_constructed", "protocol_object_commands"]
@@ -240,6 +240,10 @@ def wire_ops(spec, part):
         sc = {"transport": transport, "framing": framing, "keep_alive": rnd.random() < 0.6, "T": 1, "R": 3,
               "comm": rnd.choice((0, 0x11, 0xF7, 0xFE)), "family": rnd.choice(("ET", "DT")),
               "tasks": [{"start": 0.0, "steps": steps}]}
+        if transport == "tcp" and rnd.random() < 0.5:     # some connection attempts fail before anything is sent
+            sc["connect"] = [rnd.choice(("ok", "refused", "ok", "timeout", "unreach")) for _ in range(16)]
+            sc["keep_alive"] = rnd.random() < 0.3
+            part.count("tcp_connect_failures_between_requests")
         run = engine.run_scenario(sc, peer_factory=lambda s, _sim=sim: _sim, quiesce=False)
         part.evaluations += 1
         case = {"wire": True, "scenario": sc, "seed": spec["seed"], "i": i}
@@ -261,23 +265,32 @@ def wire_ops(spec, part):
             if seen_ops and seen_ops[-1] == op:
                 part.count("wire_retransmissions")      # (or an identical consecutive operation; resolved below)
             seen_ops.append(op)
-        # every intended op must appear in order; extra entries may only be repeats of the current op
-        j = 0
-        okay = True
-        for op in seen_ops:
-            if j < len(ops) and op == ops[j]:
-                j += 1
-            elif j > 0 and op == ops[j - 1]:
-                continue
-            else:
+        # every transmission made during call k must decode to exactly the operation call k was asked to perform (a call that
+        # fails may have made none); a call that succeeded must have transmitted at least once
+        parse = rc.parse_rtu_request if framing == "rtu" else rc.parse_tcp_request
+        op_calls = [c for c in run.calls if c["step"][0] not in ("peerdrop", "sleep")]
+        okay, matched = True, 0
+        for rec, op in zip(op_calls, ops):
+            sent = []
+            for e in engine.events_of_call(run, rec["id"]):
+                if e[1] != "tx":
+                    continue
+                try:
+                    req = parse(e[4])
+                except rc.BadFrame:
+                    continue        # (reported above as undecodable-request)
+                sent.append((req["kind"], req["reg"], req.get("count") if req["kind"] == "read" else
+                             (req.get("value") if req["kind"] == "write" else req.get("data"))))
+            wrong = [x for x in sent if x != op]
+            if wrong or (rec["outcome"] == "ok" and not sent):
                 okay = False
+                bad(part, framing, "wire-operation-mismatch",
+                    f"call #{rec['idx']} was asked for {op[:2]} (ended {rec['outcome']}) but transmitted {[(x[0], x[1]) for x in sent]}; "
+                    f"intended sequence {[(o[0], o[1]) for o in ops]}", case)
                 break
-        completed = [c for c in run.calls if c["outcome"] == "ok" and c["step"][0] != "peerdrop"]
-        if not okay or j < len(completed):
-            bad(part, framing, "wire-operation-mismatch",
-                f"intended {[(o[0], o[1]) for o in ops]} but the simulator decoded {[(o[0], o[1]) for o in seen_ops]}", case)
-        else:
-            part.count("wire_ops_matched", j)
+            matched += bool(sent)
+        if okay:
+            part.count("wire_ops_matched", matched)
         part.see(f"wire|{framing}|{len(ops)}|{drops}|{tuple(o[0] for o in ops)}")
 
 
